@@ -2,6 +2,7 @@ import Proofs.Arith
 import Proofs.Holding
 import Proofs.Averages
 import Pegnet.Generated.Facts
+import Proofs.RestartAvg
 /-
   C07 — Conversions execute later, at the next graded block's rates, exactly.
   Property theorems only (helper lemmas are in Proofs/).
@@ -135,6 +136,26 @@ theorem shipped_schedule :
   decide
 end Pegnet.C07
 
+namespace Pegnet.C07
+open Pegnet
+/-- **"average" means the mean over the height window.** Along any chain applied in order whose
+    averaging windows have no hole, the average the next block's conversions are priced with
+    (min(spot, ·) on the source, max(spot, ·) on the destination) is, for every asset, the mean of the
+    quotes the rate table holds for it at the heights of the window ending at the last rated height
+    before the block — 0 (unavailable) when fewer than `AverageRequired` of them are non-zero. It does
+    not depend on which of the three paths of `GetPegNetRateAverages` produced it, nor on anything
+    else the process has seen. -/
+theorem priced_with_the_window_mean (P : Params) (hp : 0 < P.avgPeriod) (bs : List Block) (b : Block)
+    (hw : WholeChain P (freshNode P) (bs ++ [b])) (t : Ticker) :
+    let n := runBlocks P (freshNode P) bs
+    (getAverages P { n.db with avgTouched := false } n.cache
+        (({ n.db with avgTouched := false } : DB).mostRecentRatesBefore b.height).2).2.get t
+      = avgOf P (window P n.db (n.db.mostRecentRatesBefore b.height).2 t) := by
+  obtain ⟨h1, _, h3⟩ := wholeChain_append P bs b _ hw
+  exact pricing_average_is_window_mean P hp _ b
+    (runBlocks_good P hp bs _ ⟨cacheOK_empty P, cacheSem_empty P _, Nat.zero_le _⟩ h1) h3 t
+end Pegnet.C07
+
 #print axioms Pegnet.C07.convert_exact
 #print axioms Pegnet.C07.convert_is_floor
 #print axioms Pegnet.C07.rates_used
@@ -145,3 +166,4 @@ end Pegnet.C07
 #print axioms Pegnet.C07.block_priced_with_averages_at_last_rated_height
 #print axioms Pegnet.C07.cache_height_after_block
 #print axioms Pegnet.C07.shipped_schedule
+#print axioms Pegnet.C07.priced_with_the_window_mean
